@@ -163,3 +163,80 @@ def view(prog, f, keep=None, depth=2, max_blocks=40, _stack=None, allow_pub=Fals
 def inlined_helpers(f):
     """paths of the callees spliced into this view (empty for an untouched function)"""
     return list(getattr(f, "inlined", []))
+
+
+class Overlay:
+    """A program in which some functions are replaced by their helper-transparent views and the helpers that only those
+    functions call (and whose bodies the views contain) are taken out: rules that enumerate `prog.fns` then see a write
+    or a call that a maintainer moved into a private helper as part of the function it was moved out of."""
+
+    def __init__(self, prog, anchors, keep=None, depth=2, max_blocks=60, allow_pub=False):
+        self._p = prog
+        self.fns = dict(prog.fns)
+        views = {}
+        for a in anchors:
+            f = prog.fns.get(a)
+            if f is None:
+                continue
+            v = view(prog, f, keep=keep, depth=depth, max_blocks=max_blocks, allow_pub=allow_pub)
+            views[a] = v
+            self.fns[a] = v
+        self.views = views
+        absorbed = set()
+        changed = True
+        spliced = {}
+        for a, v in views.items():
+            for h in inlined_helpers(v):
+                spliced.setdefault(h, set()).add(a)
+        for h, owners in spliced.items():
+            sites = prog.callers().get(h, [])
+            g = prog.fns.get(h)
+            if g is not None and sites and all(c.fn.path in owners or c.fn.path in spliced for c in sites):
+                absorbed.add(h)
+        for h in absorbed:
+            self.fns.pop(h, None)
+            for k in [k for k, f in self.fns.items() if f.root == h]:
+                pass        # closures of an absorbed helper stay: their bodies are not spliced
+        self.absorbed = absorbed
+        self._callers = None
+
+    def __getattr__(self, name):
+        return getattr(self._p, name)
+
+    def fn(self, path):
+        f = self.fns.get(path)
+        if f is None:
+            return self._p.fn(path)
+        return f
+
+    def has_fn(self, path):
+        return path in self.fns
+
+    def callers(self):
+        if self._callers is None:
+            m = {}
+            for f in self.fns.values():
+                for c in f.calls():
+                    for nm in {c.path, c.resolved}:
+                        if nm:
+                            m.setdefault(nm, []).append(c)
+            self._callers = m
+        return self._callers
+
+    def calls_of(self, *names):
+        out, seen = [], set()
+        cm = self.callers()
+        for n in names:
+            for c in cm.get(n, []):
+                if id(c) not in seen:
+                    seen.add(id(c))
+                    out.append(c)
+        return out
+
+    def closures_of(self, root_path):
+        out = [f for f in self.fns.values() if f.root == root_path]
+        v = self.views.get(root_path)
+        if v is not None:
+            for h in inlined_helpers(v):
+                out += [f for f in self._p.fns.values() if f.root == h]
+        return out
